@@ -372,6 +372,69 @@ def _construction_object(fi):
     return None
 
 
+def helper_view(prog, func, depth=2):
+    """A view of method `func` in which statement-level calls `self._helper(...)` of private
+    methods of the same class (no result, no recursion) are replaced by the helper's body, so
+    that path rules about what `func` does to the object's state see through an extracted
+    helper.  Returns `func` itself when there is nothing to expand."""
+    if func.cls is None or func.self_name is None:
+        return func
+    node = copy.deepcopy(func.node)
+    total = 0
+    for _ in range(depth):
+        caller_names = _stored_names(node) | set(func.params)
+        done = [0]
+
+        class Inl(ast.NodeTransformer):
+            def visit_Expr(self, st):
+                c = st.value
+                if isinstance(c, ast.Call) and isinstance(c.func, ast.Attribute) and \
+                        isinstance(c.func.value, ast.Name) and c.func.value.id == func.self_name:
+                    h = func.cls.methods.get(c.func.attr)
+                    if h is not None and h.kind == 'method' and h.name != func.name and \
+                            h.name.startswith('_') and not h.name.startswith('__'):
+                        body = _instantiate_helper(h, c, func.self_name, caller_names)
+                        if body:
+                            done[0] += 1
+                            return body
+                return st
+
+            def visit_FunctionDef(self, n):
+                if n is node:
+                    self.generic_visit(n)
+                return n
+
+            visit_Lambda = visit_ClassDef = lambda self, n: n
+
+        node = Inl().visit(node)
+        if not done[0]:
+            break
+        total += done[0]
+        ast.fix_missing_locations(node)
+    if not total:
+        return func
+
+    class Unroll(ast.NodeTransformer):
+        # [f(x) for x in [a, b]]  ->  [f(a), f(b)]   (arises from substituted arguments)
+        def visit_ListComp(self, lc):
+            self.generic_visit(lc)
+            if len(lc.generators) == 1 and not lc.generators[0].ifs and \
+                    isinstance(lc.generators[0].target, ast.Name) and \
+                    isinstance(lc.generators[0].iter, (ast.List, ast.Tuple)) and \
+                    len(lc.generators[0].iter.elts) <= 8:
+                v = lc.generators[0].target.id
+                elts = []
+                for e in lc.generators[0].iter.elts:
+                    elts.append(_Rename({}, {v: e}).visit(copy.deepcopy(lc.elt)))
+                return ast.copy_location(ast.List(elts=elts, ctx=ast.Load()), lc)
+            return lc
+    node = Unroll().visit(node)
+    ast.fix_missing_locations(node)
+    clone = FuncInfo(func.qualname, node, func.module, func.cls, func.kind)
+    clone.orig = getattr(func, 'orig', None)
+    return clone
+
+
 def inline_constructor_helpers(prog):
     """Expand calls `obj._helper(...)` made by a constructor (compute / read / train /
     __init__) on the object it is building, so that rules about what a constructor assigns,
